@@ -186,6 +186,9 @@ var handleNames = [][]byte{
 	wireLabels([]byte("com")), wireLabels([]byte("example"), []byte("com")), wireLabels([]byte("www"), []byte("example"), []byte("com")),
 	wireLabels([]byte("org")), wireLabels([]byte("a"), []byte("org")), wireLabels([]byte("xample"), []byte("com")), wireLabels([]byte("net")),
 	wireLabels([]byte("a-1"), []byte("x_y"), []byte("com")), wireLabels([]byte("n0"), []byte("t-t9"), []byte("org")),
+	// octets above 0x7f: a UTF-8 letter with an upper-case form (é / É differ in bit 5 of the second octet) and
+	// octets that are not UTF-8 at all — names are octet strings, only ASCII letters fold
+	wireLabels([]byte("caf\xc3\xa9"), []byte("com")), wireLabels([]byte("\xff\xfe"), []byte("x\x80y"), []byte("org")),
 }
 
 // flipBit5 toggles bit 5 of one octet of a label that is not an ASCII letter (so the names differ, but not
@@ -207,6 +210,18 @@ func flipBit5(r *rand.Rand, n []byte) []byte {
 	}
 	o := append([]byte(nil), n...)
 	o[cand[r.Intn(len(cand))]] ^= 0x20
+	return o
+}
+
+// asciiLower: the DNS notion of lower case — octets 'A'..'Z' only (strings.ToLower would fold UTF-8 letters and
+// replace invalid UTF-8 octets).
+func asciiLower(n []byte) []byte {
+	o := append([]byte(nil), n...)
+	for i, c := range o {
+		if c >= 'A' && c <= 'Z' {
+			o[i] = c + 32
+		}
+	}
 	return o
 }
 
@@ -365,7 +380,7 @@ func genHandle(r *rand.Rand, thorough bool, emit func(c, cat string)) {
 			cat += "-opt"
 		}
 		// upstream outcomes
-		lq := strings.ToLower(string(qname)) // length octets < 64 are unaffected
+		lq := string(asciiLower(qname)) // ASCII letters only (names are octet strings); length octets < 64 are unaffected
 		for k := 0; k < nups; k++ {
 			switch r.Intn(8) {
 			case 0:
@@ -402,11 +417,12 @@ func genHandle(r *rand.Rand, thorough bool, emit func(c, cat string)) {
 				}
 				if r.Intn(10) == 0 { // an upstream OPT outside the additional section: must not be relayed either
 					g := &msgGen{r: r}
-					toks = append(toks, fmt.Sprintf("%s%s=-,41,4096,0,raw,%s", p, []string{"ns", "an"}[r.Intn(2)], hexs(g.optData())))
+					toks = append(toks, fmt.Sprintf("%s%s=-,41,4096,%d,raw,%s", p, []string{"ns", "an"}[r.Intn(2)], []uint32{0, 0x8000, 0x2a000000}[r.Intn(3)], hexs(g.optData())))
 				}
 				if r.Intn(2) == 0 { // upstream OPT with options: must not be relayed
 					g := &msgGen{r: r}
-					toks = append(toks, fmt.Sprintf("%sar=-,41,4096,0,raw,%s", p, hexs(g.optData())))
+					// … nor its flags (DO, version, extended rcode in the TTL field)
+					toks = append(toks, fmt.Sprintf("%sar=-,41,4096,%d,raw,%s", p, []uint32{0, 0x8000, 0x01008000, 0xff010000}[r.Intn(4)], hexs(g.optData())))
 				}
 				if r.Intn(6) == 0 {
 					toks = append(toks, fmt.Sprintf("%sar=%s,1,1,60,a,7f000001", p, hexs(handleNames[4])))
@@ -440,7 +456,7 @@ func runPrefetchFw(cs string) string {
 	defer v.Close()
 	qf := strings.Split(m["q"], ",")
 	name := unhex(qf[0])
-	lname := []byte(strings.ToLower(string(name)))
+	lname := asciiLower(name)
 	typ, class := uint16(atoi(qf[1])), uint16(atoi(qf[2]))
 	var log []string
 	reply := fmt.Sprintf("h=1,1,0,0,0,1,1,0,0,0 q=%s,%d,%d an=%s,1,%d,300,a,0a000001", hexs(lname), typ, class, hexs(lname), class)
